@@ -29,7 +29,8 @@ RULE = ("job = seed -> TLS 1.3 (all five suites, +- client certificate for "
         "on the server; illegal control => fatal alert from the receiver.  "
         "distinct = digest(scenario, rounds, choices); non-trivial = >= 1 "
         "control operation was processed by the peer"
-        ' The control traffic may run on a resumed connection (ID / ticket / PSK) and after a HelloRetryRequest handshake; step invariant: the server session names a new client chain only after the post-handshake Finished has been accepted (small server record limits spread the flight over several records).')
+        ' The control traffic may run on a resumed connection (ID / ticket / PSK) and after a HelloRetryRequest handshake; step invariant: the server session names a new client chain only after the post-handshake Finished has been accepted (small server record limits spread the flight over several records).'
+        ' Heartbeats sized on / next to the record boundary; post-handshake auth with a client that declines (empty Certificate), with a request that does not offer certificate compression, and replay of an already answered request.')
 LEVEL_TEXT = ("Seeded exploration of bounded control/data histories with "
               "random interleaving and delivery; the key-schedule oracle is "
               "an independent HKDF written on stdlib hmac.")
